@@ -229,6 +229,10 @@ class TEvent:
         if self.flag:
             c.effect(me, 'wake')
             return True
+        if c.finale:
+            # the run is over (the end observation was taken when every thread was blocked); report "set" so that a
+            # waiter written as `while not wait(T): pass` leaves its loop as well as one that re-reads the time left
+            return True
         c.effect(me, 'timeout')
         return False
 
